@@ -7,6 +7,7 @@ from sympy.physics.units import Dimension
 from sympy.physics.units.definitions.dimension_definitions import angle as angle_type
 
 from ..dimensions import assert_equivalent_dimension, dimensionless
+from ..dimensions.miscellaneous import is_any_dimension
 from ..symbols.quantities import Quantity, subs_list
 from ..symbols.id_generator import next_id
 from ..symbols.symbols import DimensionSymbol
@@ -118,11 +119,12 @@ class QuantityVector(DimensionSymbol):
         quantities = [
             c if isinstance(c, Quantity) else Quantity(c, dimension=dimension) for c in components
         ]
-        # find first dimension with non-zero scale factor
+        # find first dimension of a component whose value can tell it: a zero, infinite or NaN
+        # component matches any dimension and carries none of its own
         if dimension is None:
             dimension = dimensionless
             for q in quantities:
-                if q.scale_factor != 0:
+                if not is_any_dimension(q.scale_factor):
                     dimension = q.dimension
                     break
         scale_factors = []
